@@ -244,6 +244,11 @@ ROLE_SCRIPTS = {
     "create_then_chain": ["CREATE TABLE zqt1 (ca int)", "INSERT INTO zqt2 SELECT ca, cb FROM zqt3", "INSERT INTO zqt4 SELECT ca FROM zqt5"],
     "select_first": ["SELECT ca FROM zqt1", "INSERT INTO zqt2 SELECT ca, cb FROM zqt3", "INSERT INTO zqt4 SELECT ca FROM zqt5"],
     "self_insert_in_chain": ["INSERT INTO zqt1 SELECT ca FROM zqt2 JOIN zqt3 ON zqt2.id = zqt3.id", "INSERT INTO zqt4 SELECT ca FROM zqt5"],
+    # DROP / RENAME among data-moving statements: a table filled from constants only (nothing is read for it) may be the
+    # one that is dropped later; its columns keep it in the graph
+    "constants_then_drop": ["WITH cs AS (SELECT 1 AS ca) INSERT INTO zqt1 SELECT ca FROM cs", "INSERT INTO zqt2 SELECT ca FROM zqt3", "DROP TABLE zqt4"],
+    "chain_then_drop": ["INSERT INTO zqt1 SELECT ca FROM zqt2", "DROP TABLE zqt3", "INSERT INTO zqt4 SELECT ca FROM zqt5"],
+    "chain_then_rename": ["INSERT INTO zqt1 SELECT ca FROM zqt2", "INSERT INTO zqt3 SELECT ca FROM zqt1", "ALTER TABLE zqt4 RENAME TO zqt5"],
     "two_selects_one_write": ["SELECT ca FROM zqt1", "CREATE TABLE zqt2 (ca int)", "INSERT INTO zqt3 SELECT ca FROM zqt4"],
 }
 
